@@ -4,11 +4,52 @@ import (
 	"bytes"
 	"io"
 	"math"
+	"runtime"
+	"sort"
+	"strings"
+	"time"
 )
+
+const libPrefix = "github.com/filecoin-project/go-jsonrpc"
+
+// leftoverLib lists goroutines created by library code that are still alive.
+func leftoverLib() []string {
+	time.Sleep(quiesceDelay)
+	buf := make([]byte, 1<<20)
+	n := runtime.Stack(buf, true)
+	var out []string
+	for _, g := range strings.Split(string(buf[:n]), "\n\n") {
+		lines := strings.Split(g, "\n")
+		created := ""
+		for _, l := range lines {
+			if strings.HasPrefix(l, "created by ") {
+				created = strings.TrimPrefix(l, "created by ")
+			}
+		}
+		if !strings.HasPrefix(created, libPrefix+".") && !strings.HasPrefix(created, libPrefix+"/") {
+			continue
+		}
+		top := ""
+		if len(lines) > 1 {
+			top = lines[1]
+			if i := strings.IndexByte(top, '('); i > 0 {
+				top = top[:i]
+			}
+		}
+		if f := strings.Fields(created); len(f) > 0 {
+			created = f[0]
+		}
+		out = append(out, created+"@"+top)
+	}
+	sort.Strings(out)
+	return out
+}
+
+func nativeLeftover() int        { return len(leftoverLib()) }
+func nativeLeftoverDesc() string { return strings.Join(leftoverLib(), ";") }
 
 func bytesReader(b []byte) io.Reader   { return bytes.NewReader(b) }
 func float64frombits(b uint64) float64 { return math.Float64frombits(b) }
-func nativeLeftover() int              { return 0 }
 
 type padReader struct {
 	head []byte
